@@ -175,11 +175,16 @@ func (s c13Shape) String() string {
 
 func (s c13Shape) wildcardFree() bool { return !s.subs && s.port != ":*" }
 
+var c13Schemes = []string{"httpx", "https+foo", "http-ext.v2", "httpss", "https.", "http2", "ht", "h", "htt", "files", "file2", "filesystem", "fil", "nul", "nulls", "null",
+	"ws", "wss", "ftp", "connector", "chrome-extension", "moz-extension", "a+b.c-d", "x-y", "s3", "z39.50"}
+
 var validALabelHosts = []string{"www.xn--xample-9ua.com", "xn--bcher-kva.example", "a.xn--bcher-kva.example.org"}
 
 func genValidShape(rng *rand.Rand) c13Shape {
 	var s c13Shape
-	switch rng.IntN(10) {
+	switch rng.IntN(12) {
+	case 10, 11: // schemes that extend, or are prefixes of, well-known ones
+		s.scheme = choose(rng, c13Schemes)
 	case 0:
 		s.scheme = "http"
 	case 1, 2:
@@ -502,6 +507,13 @@ func TestVerif_C13(t *testing.T) {
 				c := c13Case{Pattern: allMaximaShape(rng).String(), Valid: true, Shape: "all-maxima"}
 				c13Run(r, l, c)
 				l.NontrivialKey(c.Pattern)
+			}
+			for _, sch := range c13Schemes {
+				for _, rest := range []string{"://example.com", "://example.com:8080", "://localhost:*", "://*.example.com"} {
+					c := c13Case{Pattern: sch + rest, Valid: true, Shape: "scheme-pool"}
+					c13Run(r, l, c)
+					l.NontrivialKey(c.Pattern)
+				}
 			}
 			c13Run(r, l, c13Case{Pattern: "null", Valid: false, Defect: "null"})
 			c13Run(r, l, c13Case{Pattern: "file:///somepath", Valid: false, Defect: "file-scheme"})
